@@ -827,6 +827,41 @@ mut("c06-benign-payload-len-local", "C06", RQ,
     None, "payload_rem widened into a local first")
 
 # ---- C03 -------------------------------------------------------------------------------------------------
+mut("c03-stream-payload-unclamped", "C03", ST,
+    """        let payload_len = min(usize::from(self.payload_rem), raw_len);""",
+    """        let payload_len = usize::from(self.payload_rem);""",
+    "R3.11/stream::parse_payload/slice", "a record body longer than the buffered input slices past free_start (and possibly past the buffer)")
+mut("c03-stream-head-bounded-by-capacity", "C03", ST,
+    """        if past_head > self.free_start {
+            return Ok(Break(()));
+        }""",
+    """        if past_head > self.buffer.len() {
+            return Ok(Break(()));
+        }""",
+    "R3.11/stream::parse_head/postcondition", "a header is read from bytes that were never received; raw_start overtakes free_start")
+mut("c03-stream-padding-off-by-one", "C03", ST,
+    """                if raw_len <= self.padding_rem.into() {
+                    self.raw_start = self.free_start;""",
+    """                if raw_len <= usize::from(self.padding_rem) + 1 {
+                    self.raw_start = self.free_start;""",
+    "R3.11/stream::parse/sub", "padding_rem -= raw_len underflows when one byte more than the padding is buffered")
+mut("c03-getvalues-decoder-unclamped", "C03", RQ,
+    """            let len = min(data.len(), self.payload_rem.into());
+            let mut nvit = fcgi::nv::NVIter::new(&data[..len]);""",
+    """            let len = data.len();
+            let mut nvit = fcgi::nv::NVIter::new(&data[..len]);""",
+    "R3.9", "the decoder reads past the record's payload (no arithmetic fault: R3.11 rightly stays silent, R3.9 fires)")
+mut("c03-request-parse-no-precondition", "C03", RQ,
+    """        assert!(new_input <= self.input.len() - self.input_len);
+        self.input_len += new_input;""",
+    """        self.input_len += new_input;""",
+    "R3.11/request::parse/slice", "input[..input_len] can be out of bounds")
+mut("c03-benign-stream-padding-lt", "C03", ST,
+    """                if raw_len <= self.padding_rem.into() {
+                    self.raw_start = self.free_start;""",
+    """                if raw_len < self.padding_rem.into() {
+                    self.raw_start = self.free_start;""",
+    None, "the equal case takes the other branch with the same result (raw_start = free_start, padding_rem = 0)")
 mut("c03-compress-stale-gap-in-guard", "C03", ST,
     """        // [parsed_start, gap_start) moved to [0, gap_start - parsed_start)
         self.gap_start -= self.parsed_start;
